@@ -55,6 +55,10 @@ def run(ck, rng):
                          ("root_dep", "hist " + ";".join(build + ["Wd,0,%s,%s" % (bf_csv(bf), kk)])),
                          ("iter", "hist " + ";".join(build + ["I,0,%s,%s" % (bf_csv(bf), kk)])),
                          ("iter_dep", "hist " + ";".join(build + ["Id,0,%s,%s" % (bf_csv(bf), kk)]))]
+            if rng.random() < 0.15:
+                # an encoding option on a walk call must not change what is visited
+                e = rng.choice("jyt")
+                variants = [(nm, c + "," + e) if not nm.startswith("iter") else (nm, c) for nm, c in variants]
             for name, c in (variants if ck.tier == "thorough" else rng.sample(variants, 2)):
                 its = items if name.startswith("md") else r0
                 cases.append(c)
